@@ -224,7 +224,10 @@ func setup(kind, seed int) (worlds, bool) {
 }
 
 // step applies op to all worlds and asserts equal outcome and equal trees.
-func (w worlds) step(op Op) {
+func (w worlds) step(op Op) { w.stepc(op) }
+
+// stepc is step returning the implementation's and the model's result codes.
+func (w worlds) stepc(op Op) (int, int) {
 	kinds := sysx.Kind(w.model, op.P)
 	if twoPath(op.T) {
 		kinds += "," + sysx.Kind(w.model, op.Q) + relation(w.model, op)
@@ -254,6 +257,7 @@ func (w worlds) step(op Op) {
 		sym.Assert(sa.Kind == sb.Kind && sa.Size == sb.Size || sa.Kind == posix.KDir && sb.Kind == posix.KDir, "C01|"+label+"|stat-result")
 	}
 	compare(w.impl, w.model, "C01|"+label, nil, w.owners)
+	return ci, cm
 }
 
 func (w worlds) done() {
@@ -288,8 +292,39 @@ func HStep2(kind, seed, t1, t2 int) {
 		return
 	}
 	sym.Reach("step2")
-	w.step(pickOp(Templates[t1], "a"))
+	// first step: operands range over the universe, scalars are fixed; only
+	// histories whose first call succeeds identically on both sides continue
+	// (a failed first call leaves the tree as it was - asserted by step - so the
+	// second call is then already covered by HStep)
+	ci, cm := w.stepc(pickOpFixed(Templates[t1], "a"))
+	if ci != 0 || cm != 0 {
+		return
+	}
+	sym.Reach("step2-second")
 	w.step(pickOp(Templates[t2], "b"))
+}
+
+// pickOpFixed: operands from the universe, concrete scalars.
+func pickOpFixed(t string, tag string) Op {
+	op := Op{T: t}
+	n := len(sysx.Universe)
+	op.P = sysx.Universe[sym.Choose(tag+"p", n)]
+	if twoPath(t) {
+		op.Q = sysx.Universe[sym.Choose(tag+"q", n)]
+	}
+	switch t {
+	case "Mkdir":
+		op.Perm = 0o750
+	case "OpenFile":
+		op.Flag = posix.OWronly | posix.OCreate | posix.OTrunc
+		op.Perm = 0o640
+		op.Data = []byte("q")
+	case "Symlink":
+		op.Target = targets[sym.Choose(tag+"t", len(targets))]
+	case "Truncate":
+		op.Size = 1
+	}
+	return op
 }
 
 // HUnclean: a path that is not lexically clean behaves exactly as its Clean() form.
